@@ -13,6 +13,8 @@ def corr(rng, tier):
 
 def search(rng, tier, broken, cases):
     S = hist.search_c09(rng, 60 if tier == "quick" and not broken else 1200)
+    import dtypesearch
+    dtypesearch.search_dtype(rng, 12 if tier == "quick" and not broken else 60, ['steps'], pid="C09", S=S)   # same numbers typed int64 vs float64
     return S.violations, S.stats()
 
 
